@@ -1,4 +1,5 @@
 """C07 - fit discards everything learned before."""
+import numpy as np
 from hypothesis import strategies as st
 
 from vlib import gen, ops, streams, twin
@@ -7,7 +8,8 @@ from vlib.runner import Result, SubCheck, Violation
 PROPERTY = "C07"
 LEVEL = "exploration"
 RULE = ("A generated prior history (fit, partial_fit, add/remove arm, warm_start, queries; any policy pair) is "
-        "followed by fit(D), with D smaller / larger / with a different number of feature columns than before. A "
+        "followed by fit(D), with D smaller / larger / with a different number of feature columns than before (one "
+        "case in four: D delivered in the ndarray objects of an earlier fit, overwritten in place). A "
         "fresh bandit is constructed from the public properties (arms, learning_policy, neighborhood_policy, seed, "
         "n_jobs, backend), given the re-fitted bandit's random-stream positions from just before fit(D), and fit on "
         "D; both then run a generated continuation (queries, cold_arms, partial_fit, arm changes, warm_start) and "
@@ -37,17 +39,25 @@ def plan_st(draw, tier):
     old_rows = h.rows
     h.max_rows = draw(st.sampled_from([2, 6, 12]))
     npn = cfg["np"][0] if cfg["np"] else None
+    buffer_from = None
     if npn in (None, "Radius", "TreeBandit") and draw(st.integers(0, 9)) == 0:
         # D with zero rows (an empty array with d columns for contextual bandits): a fresh bandit fit on it is untrained
         h.ops.append(["fit", [], [], {"empty": h.d} if h.contextual else None])
         h.rows = 0
         h.fitted = True
     else:
-        h.fit(new_d=draw(st.booleans()))
+        fits = [i for i, op in enumerate(h.ops) if op[0] == "fit" and len(op[1]) > 0]
+        if fits and draw(st.integers(0, 3)) == 0:
+            # D arrives in the caller's training buffers: the very ndarray objects of an earlier fit, overwritten in
+            # place with the new data (same shape) - D is a new data set all the same
+            buffer_from = fits[-1]
+            h.fit(n=len(h.ops[buffer_from][1]))
+        else:
+            h.fit(new_d=draw(st.booleans()))
     for _ in range(draw(st.integers(1, 7 if tier == "quick" else 12))):
         gen.step_any(h, ["partial_fit"] + gen.ARM_KINDS + gen.WARM_KINDS + gen.QUERY_KINDS * 3 + ["cold_arms"], True)
     return {"config": cfg, "prior": h.ops[:n_prior], "refit": h.ops[n_prior], "cont": h.ops[n_prior + 1:],
-            "old_rows": old_rows}
+            "old_rows": old_rows, "buffer_from": buffer_from}
 
 
 def strategy(tier, ctx):
@@ -62,14 +72,45 @@ def fresh_from(b):
 def evaluate(plan, ctx):
     cfg = plan["config"]
     b = ops.build(cfg)
-    twin.must_succeed(b, plan["prior"], "prior history")
+    j = plan.get("buffer_from")
+    bufs = None
+    if j is None:
+        twin.must_succeed(b, plan["prior"], "prior history")
+    else:
+        twin.must_succeed(b, plan["prior"][:j], "prior history")
+        op, re = plan["prior"][j], plan["refit"]
+        bufs = [np.array(op[1], dtype=np.array(list(op[1]) + list(re[1])).dtype), np.array(op[2], dtype=float),
+                np.array(op[3], dtype=float) if op[3] is not None else None]
+        try:
+            b.fit(bufs[0], bufs[1], bufs[2]) if bufs[2] is not None else b.fit(bufs[0], bufs[1])
+        except Exception as e:
+            raise Violation("unexpected_exception", "prior fit on ndarray buffers raised %r" % (e,),
+                            bucket="unexpected_exception:fit:" + type(e).__name__)
+        twin.must_succeed(b, plan["prior"][j + 1:], "prior history")
     try:
         f = fresh_from(b)
     except Exception as e:
         raise Violation("rebuild", "constructing a fresh bandit from the public properties raised %r" % (e,))
     mode = streams.align(b, f, normalise=False)
     empty = len(plan["refit"][1]) == 0
-    twin.run_both(b, f, [plan["refit"]], "refit_vs_fresh", "re-fitted bandit", "fresh bandit", allow_exc=empty)
+    if bufs is None:
+        twin.run_both(b, f, [plan["refit"]], "refit_vs_fresh", "re-fitted bandit", "fresh bandit", allow_exc=empty)
+    else:
+        re = plan["refit"]
+        bufs[0][...] = np.array(re[1], dtype=bufs[0].dtype)
+        bufs[1][...] = np.array(re[2], dtype=float)
+        if bufs[2] is not None:
+            bufs[2][...] = np.array(re[3], dtype=float)
+        outs = []
+        for m, args in ((b, bufs), (f, [x.copy() if x is not None else None for x in bufs])):
+            try:
+                m.fit(args[0], args[1], args[2]) if args[2] is not None else m.fit(args[0], args[1])
+                outs.append(None)
+            except Exception as e:
+                outs.append(ops.Exc(e))
+        if outs[0] is not None or outs[1] is not None:
+            raise Violation("unexpected_exception", "fit on the overwritten buffers: re-fitted bandit %r, fresh bandit "
+                            "%r" % (outs[0], outs[1]), bucket="unexpected_exception:fit:buffers")
     twin.run_both(b, f, plan["cont"], "refit_vs_fresh", "re-fitted bandit", "fresh bandit", start=1, allow_exc=empty)
     kinds = [op[0] for op in plan["prior"]]
     nt = any(k in ops.TRAIN_OPS for k in kinds) and any(
@@ -78,6 +119,8 @@ def evaluate(plan, ctx):
     ev = twin.pair_events(cfg) + ["align=" + mode]
     if empty:
         ev.append("D_empty")
+    if bufs is not None:
+        ev.append("D_in_reused_buffers")
     if len(plan["refit"][1]) < plan["old_rows"]:
         ev.append("D_shorter_than_history")
     if plan["refit"][3] is not None and not empty and plan["prior"] and any(
